@@ -1,6 +1,6 @@
 (** C06 — termination bookkeeping: the dependency tracker never loses or duplicates a waiter; prompts are bounded. *)
 From Coq Require Import ZArith NArith List Bool Permutation.
-From HV Require Import Solver TrackerProofs RunLemmas SolverPrompt SolverExamples.
+From HV Require Import Solver TrackerProofs RunLemmas SolverDem SolverPrompt SolverExamples SolverWaits.
 Import ListNotations.
 
 (* (1) every history of add_unmet / meet / generator steps keeps the representation invariant *)
@@ -36,9 +36,49 @@ Theorem C06_prompts_bounded :
   NoDup (prompted (trace (result_state r))) /\ clean (trace (result_state r)).
 Proof. intros. eapply prompts_demand_exact. eassumption. Qed.
 
+(* (3) bounded work, the part that is a theorem: in every run - finished, failed, aborted or cut short - no line waits twice for the
+   same line (the list of all (waiter, line) registrations ever made has no duplicates) ... *)
+Theorem C06_no_repeated_wait :
+  forall (C:catalogue) (rank:name -> N) (ans:name -> option V) (R:list name) fuel (I:istore) hp r,
+  cat_wf C -> cat_nodup C -> NoDup R ->
+  solve C rank fuel R [] I hp ans = r -> NoDup (edges (result_state r)).
+Proof. intros C rank ans R fuel I hp r. exact (no_repeated_wait C rank ans R fuel I hp r). Qed.
+
+(* ... and each line is in at most one place: in the queue, or registered as a waiter under ONE dependency of one of the two trackers.
+   (A line is therefore only ever attempted when it is registered nowhere, and each attempt registers it at most once.) *)
+Theorem C06_one_place_per_line :
+  forall (C:catalogue) (rank:name -> N) (ans:name -> option V) (R:list name) fuel (I:istore) hp r,
+  cat_wf C -> cat_nodup C -> NoDup R ->
+  solve C rank fuel R [] I hp ans = r ->
+  let s := result_state r in NoDup (unatt s ++ waiters (fdep s) ++ waiters (idep s)).
+Proof. intros C rank ans R fuel I hp r. exact (tokens_unique C rank ans R fuel I hp r). Qed.
+
+(* non-vacuity: the example catalogue meets the hypotheses; its cyclic run has four distinct waits *)
+Ltac nodup_lit := repeat (apply NoDup_cons; [cbn [In]; intros Hx; repeat (destruct Hx as [Hx|Hx]; [discriminate Hx|]); exact Hx|]); apply NoDup_nil.
+Example C06_exC_well_formed : cat_wf exC /\ cat_nodup exC.
+Proof.
+  split.
+  - intros F fi l Hc Hin. destruct F as [|p]; [|destruct p as [p|p|]]; cbn in Hc; try discriminate; inversion Hc; subst;
+      cbn [f_required f_optional app In] in Hin; repeat (destruct Hin as [Hin|Hin]; [subst l; reflexivity|]); contradiction.
+  - intros F fi Hc. destruct F as [|p]; [|destruct p as [p|p|]]; cbn in Hc; try discriminate; inversion Hc; subst;
+      cbn [f_required f_optional app]; nodup_lit.
+Qed.
+Example C06_cycle_waits :
+  edges (result_state ex_cycle) = [(12%N, 11%N); (11%N, 12%N); (10%N, 20%N); (11%N, 10%N)] /\ NoDup (edges (result_state ex_cycle)).
+Proof.
+  split; [vm_compute; reflexivity|]. unfold ex_cycle.
+  refine (no_repeated_wait exC exRank (fun _ => None) [0%N] 50 [(30%N, Some 3%Z); (31%N, Some 4%Z)] false _
+            (proj1 C06_exC_well_formed) (proj2 C06_exC_well_formed) _ eq_refl).
+  nodup_lit.
+Qed.
+
 Goal True. idtac "@@PA C06_tracker_history_wf". Abort.
 Print Assumptions C06_tracker_history_wf.
 Goal True. idtac "@@PA C06_drain_complete". Abort.
 Print Assumptions C06_drain_complete.
 Goal True. idtac "@@PA C06_prompts_bounded". Abort.
 Print Assumptions C06_prompts_bounded.
+Goal True. idtac "@@PA C06_no_repeated_wait". Abort.
+Print Assumptions C06_no_repeated_wait.
+Goal True. idtac "@@PA C06_one_place_per_line". Abort.
+Print Assumptions C06_one_place_per_line.
